@@ -10,7 +10,7 @@
      Byte                                          WriteByte / ReadByte
      Bytes    a = n                                WriteBytes / ReadBytes(n)
      InPlace  a = n                                WriteBytes / ReadBytesInPlace(slice of n)
-     VarBytes a = prefix width (1,2,4) b = min c = max (0 = none)   WriteVariableByteSlice / ReadVariableByteSlice
+     VarBytes a = prefix width (1,2,4,8) b = min c = max (0 = none)   WriteVariableByteSlice / ReadVariableByteSlice
      String   a = prefix width, b = min, c = max                    WriteString / ReadString
      U256                                          WriteUint256 / ReadUint256  (32 bytes)
      Time                                          WriteTime / ReadTime        (8 bytes, ns)
@@ -140,10 +140,10 @@ SingleOps ==
        {O("Num", w, 0, 0) : w \in {1, 2, 4, 8}}
   \cup {O("Bool", 0, 0, 0), O("Byte", 0, 0, 0), O("U256", 0, 0, 0), O("Time", 0, 0, 0), O("PayLen", 0, 0, 0), O("All", 0, 0, 0)}
   \cup {O("Bytes", 0, 0, 0), O("Bytes", 2, 0, 0), O("InPlace", 3, 0, 0), O("Skip", 2, 0, 0)}
-  \cup {O("VarBytes", w, 0, 0) : w \in {1, 2, 4}} \cup {O("VarBytes", 1, 1, 2), O("VarBytes", 4, 0, 3), O("VarBytes", 2, 2, 0)}
-  \cup {O("String", w, 0, 0) : w \in {1, 2, 4}} \cup {O("String", 1, 1, 2), O("String", 4, 0, 2)}
+  \cup {O("VarBytes", w, 0, 0) : w \in {1, 2, 4, 8}} \cup {O("VarBytes", 1, 1, 2), O("VarBytes", 4, 0, 3), O("VarBytes", 2, 2, 0)}
+  \cup {O("String", w, 0, 0) : w \in {1, 2, 4, 8}} \cup {O("String", 1, 1, 2), O("String", 4, 0, 2)}
   \cup {O("Prefix", 1, 2, 0), O("Prefix", 4, 1, 0)}
-  \cup {O("Seq", w, e, 0) : w \in {1, 2, 4}, e \in {1, 2}}
+  \cup {O("Seq", w, e, 0) : w \in {1, 2, 4}, e \in {1, 2}} \cup {O("Seq", 8, 1, 0)}
 Chains == {
   <<O("Prefix", 1, 2, 0), O("Num", 2, 0, 0), O("VarBytes", 1, 0, 0), O("All", 0, 0, 0)>>,
   <<O("Bool", 0, 0, 0), O("Seq", 1, 1, 0), O("String", 1, 0, 0)>>,
